@@ -37,6 +37,9 @@ def run(repo: Repo, rep, tier: str):
     note_map(repo, rep, "C16")
     chunk_dispatch(repo, rep, "C16")
     helper_siblings(repo, rep, "C16")
+    slot_index_rule(repo, rep, "C16")
+    legacy_upgrade_rule(repo, rep, "C16")
+    sampler_chunk_numbers(repo, rep, "C16")
 
 
 def _sampler(repo: Repo):
@@ -947,6 +950,100 @@ def chunk_dispatch(repo: Repo, rep, P: str):
     else:
         rep.violation(f"{P}.R3", f"{rel}:Sampler.specialized_iff_chunks", "effect chunk", "embedded effect is not written as chunk 0x10a / not loaded through read_sunvox_file",
                       f"{rel}:{wf.lineno}")
+
+
+def slot_index_rule(repo: Repo, rep, P: str):
+    """Sample chunks are numbered by the slot's own index in self.samples (slots stay at their indices)."""
+    samp, W, R = _sampler(repo)
+    rel = samp.file.rel
+    fn = repo.own_method(samp, "sample_data_chunks")
+    con = f"{rel}:Sampler.sample_data_chunks"
+    loops = [n for n in walk_no_nested(fn) if isinstance(n, ast.For)]
+    ok = False
+    detail = ""
+    for lp in loops:
+        it = lp.iter
+        if isinstance(it, ast.Call) and norm(it.func) == "enumerate" and isinstance(lp.target, ast.Tuple) and len(lp.target.elts) == 2:
+            ivar, svar = norm(lp.target.elts[0]), norm(lp.target.elts[1])
+            src = norm(it.args[0])
+            start = norm(it.args[1]) if len(it.args) > 1 else "0"
+            calls = [c for c in ast.walk(lp) if isinstance(c, ast.Call) and norm(c.func) == "self.sample_chunks"]
+            if src == "self.samples" and start == "0" and calls and [norm(a) for a in calls[0].args] == [ivar, svar]:
+                ok = True
+            else:
+                detail = f"enumerate({src}, {start}) → sample_chunks({', '.join(norm(a) for a in calls[0].args) if calls else '?'})"
+    if ok:
+        rep.ok(f"{P}.R2", con, "for i, sample in enumerate(self.samples): … self.sample_chunks(i, sample)", "chunk numbers follow the slot index")
+    else:
+        rep.violation(f"{P}.R2", con, detail or norm(fn)[:160],
+                      "sample chunks must be numbered by the sample's index in self.samples itself; enumerating a filtered/compacted "
+                      "sequence moves samples to lower slots when earlier slots are empty (the note map then points at the wrong samples)",
+                      f"{rel}:{fn.lineno}")
+    # reader: slot index written back at the same index
+    lm = norm(repo.own_method(samp, "load_sample_meta"))
+    ld = norm(repo.own_method(samp, "load_sample_data"))
+    if "sample = self.samples[index] = self.Sample()" in lm and "sample = self.samples[index]" in ld:
+        rep.ok(f"{P}.R2", f"{rel}:Sampler.load_sample_meta", "self.samples[index] = self.Sample()", "loaded into the slot its chunk number names")
+    else:
+        rep.violation(f"{P}.R2", f"{rel}:Sampler.load_sample_meta", lm[:160], "a sample must be stored at the slot index derived from its chunk number", rel)
+
+
+def legacy_upgrade_rule(repo: Repo, rep, P: str):
+    """_upgrade_envelopes copies each legacy field into the field of the same name on the same envelope."""
+    samp, W, R = _sampler(repo)
+    rel = samp.file.rel
+    fn = repo.own_method(samp, "_upgrade_envelopes")
+    con = f"{rel}:Sampler._upgrade_envelopes"
+    n = 0
+    for a in walk_no_nested(fn):
+        if isinstance(a, ast.Assign) and len(a.targets) == 1 and isinstance(a.targets[0], ast.Attribute) and isinstance(a.value, ast.Attribute) \
+                and a.value.attr.startswith("_legacy_"):
+            n += 1
+            t, v = a.targets[0], a.value
+            same_recv = norm(t.value) == norm(v.value)
+            same_field = v.attr[len("_legacy_"):] == t.attr
+            if same_recv and same_field:
+                rep.ok(f"{P}.R5", con, norm(a), "legacy field → field of the same name")
+            else:
+                rep.violation(f"{P}.R5", con, norm(a),
+                              f"the legacy value `{v.attr}` of `{norm(v.value)}` is copied into `{norm(t)}`: when a pre-envelope instrument is "
+                              "converted this field gets another field's value", f"{rel}:{a.lineno}")
+    rep.count("legacy_field_copies", n, 8)
+    src = norm(fn)
+    for env in ("vol", "pan"):
+        pass
+    # y values are rescaled with the envelope's own range
+    if src.count("* 512") >= 2 and ".range[0]" in src:
+        rep.ok(f"{P}.R5", con, "legacy y * 0x200 + range[0]", "legacy point heights rescaled into the envelope's range", nontrivial=False)
+    fl = norm(repo.own_method(samp, "finalize_load"))
+    if "if not self.volume_envelope.loaded:" in fl and "self._upgrade_envelopes()" in fl:
+        rep.ok(f"{P}.R5", f"{rel}:Sampler.finalize_load", "if not volume_envelope.loaded: _upgrade_envelopes()", "conversion runs exactly when no envelope chunk was present")
+    else:
+        rep.violation(f"{P}.R5", f"{rel}:Sampler.finalize_load", fl[:160], "legacy envelopes must be converted when (and only when) the file has no envelope chunks", rel)
+
+
+def sampler_chunk_numbers(repo: Repo, rep, P: str):
+    """Every chunk number the Sampler writes is loaded into the field it came from, and vice versa (shared with C02 R3)."""
+    from .. import chnm
+    samp, W, R = _sampler(repo)
+    rel = samp.file.rel
+    w = chnm.WriterNumbers(repo, samp)
+    nums = w.run()
+    for msg, node in w.problems:
+        rep.violation(f"{P}.R3", f"{rel}:Sampler.specialized_iff_chunks", msg,
+                      "the set of chunk numbers the Sampler writes is no longer derivable from the slot indices (numbering does not follow "
+                      "self.samples / the envelope objects)", f"{rel}:{getattr(node, 'lineno', 0)}")
+    n = 0
+    for x in nums:
+        for k in sorted({x.lo, x.hi, min(x.hi, x.lo + x.step)}):
+            n += 1
+            tgt, _ = chnm.reader_target(repo, samp, k)
+            if tgt != x.field:
+                rep.violation(f"{P}.R3", f"{rel}:Sampler.load_chunk", f"chunk {k:#x}: written from `{x.field}`, loaded into `{tgt or 'nothing'}`",
+                              "a Sampler chunk is not loaded back into the field it was written from", rel)
+            else:
+                rep.ok(f"{P}.R3", f"{rel}:Sampler.load_chunk", f"chunk {k:#x} ↔ {x.field}", nontrivial=False)
+    rep.count("sampler_chunk_numbers", n, 16)
 
 
 def helper_siblings(repo: Repo, rep, P: str):
